@@ -23,6 +23,31 @@ def notified (callbacks : List Sub) (c : Cls) : List Nat :=
 
 def parseCls (n : String) : Option Cls := Cls.all.find? fun c => c.name == n
 
+/-! ### the registry `callbacks`: a list of (type, callback) pairs, in subscription order
+
+  `subscribe` / `unsubscribe` are interpreters of the shapes regenerated from supervisor/events.py
+  (`Sv.Gen.Events.subscribeShape`, `unsubscribeShape`, `unsubKeep`); `τ` stands for the event types and `κ` for the
+  callbacks (bound methods, compared with `==`). -/
+
+/-- `subscribe(type, callback)` -/
+def subscribe {τ κ : Type} (t : τ) (c : κ) (r : List (τ × κ)) : List (τ × κ) :=
+  match subscribeShape with
+  | .append => r ++ [(t, c)]
+  | .prepend => (t, c) :: r
+
+/-- `unsubscribe(type, callback)`: `callbacks.remove((type, callback))` takes out the first equal pair; a filtering
+    comprehension keeps the pairs its (regenerated) condition accepts -/
+def unsubscribe {τ κ : Type} [DecidableEq τ] [DecidableEq κ] (t : τ) (c : κ) (r : List (τ × κ)) : List (τ × κ) :=
+  match unsubscribeShape with
+  | .removeFirst => r.erase (t, c)
+  | .filter => r.filter fun e => unsubKeep (decide (e.1 = t)) (decide (e.2 = c))
+
+/-- the test `notify` applies to a subscription of type `t` for an event of class `c` -/
+def delivers (c t : Cls) : Bool :=
+  match notifyTest with
+  | .isinstance => isInstance c t
+  | .exactType => c == t
+
 /-! ### the documented hierarchy (docs/events.rst, "*Subtype Of*"), independent of the classes -/
 
 /-- the documented parent of the type named `n` (`none`: documented as a root, or not documented) -/
